@@ -24,7 +24,7 @@ func init() {
 		Rule: "one run = N searches pipelined on one connection (N in {2,8,64}; up to 512 in thorough); each handler first joins a barrier that opens only when all N handlers have entered " +
 			"(simultaneity is proven, not assumed), then writes K entries with unique ids (h=<message id>,j=<seq>) whose payload is a function of (h,j,len), len cycling through {3,100,5000,70000} " +
 			"(below/above the 4096-byte write buffer), then SearchDone; every Write result is logged. Runs cover plain / TLS-listener / StartTLS-upgraded transports x eager / back-pressure reading x GOMAXPROCS {1,2,4,16}, " +
-			"under the race detector; plus thousands of small bursts (2..4 writers, then silence) on one long-lived connection, where every frame of a burst must arrive before the client sends anything else (a second server in the process has a connection of the same number, which ends a third of the way through); and runs in which the server is stopped while handlers are writing and the client keeps pipelining (gldap's own shutdown notice shares the stream); runs in which the client (16KB receive buffer) stops reading for 2.6..4.4s in the middle of a stream of 70KB frames, so that one writer sits in the network write and the others wait for it all that time; runs against a server with a write timeout in which a frame larger than every socket buffer is written to a client that reads again only after a Write has failed, followed by a further request; victim connections that reset in the middle of a response before and between the writer rounds; connections that stay in use after one to three Writes panicked while encoding (recovered); single frames whose encoded size sweeps the neighbourhood of the write buffer size, each followed by silence; pipelines that end with an Unbind so that the server closes while the slow client still has most frames to read; and pipelines with a StartTLS request behind the searches, which the server answers from the read loop while the handlers write; and handlers that panic (recovered) while another handler of their connection is blocked in Write. Oracle: strict incremental parse; multiset of ids == set of successful writes; per-writer order; payload check. " +
+			"under the race detector; plus thousands of small bursts (2..4 writers, then silence) on one long-lived connection, where every frame of a burst must arrive before the client sends anything else (a second server in the process has a connection of the same number, which ends a third of the way through); and runs in which the server is stopped while handlers are writing and the client keeps pipelining (gldap's own shutdown notice shares the stream); runs in which the client (16KB receive buffer) stops reading for 2.6..4.4s in the middle of a stream of 70KB frames, so that one writer sits in the network write and the others wait for it all that time; runs against a server with a write timeout in which a frame larger than every socket buffer is written to a client that reads again only after a Write has failed, followed by a further request; victim connections that reset in the middle of a response before and between the writer rounds; connections that stay in use after one to three Writes panicked while encoding (recovered); single frames whose encoded size sweeps the neighbourhood of the write buffer size, each followed by silence; pipelines that end with an Unbind so that the server closes while the slow client still has most frames to read; and pipelines with a StartTLS request behind the searches, which the server answers from the read loop while the handlers write; and handlers that panic (recovered) while another handler of their connection is blocked in Write; every fourth small burst travels with the first octets of the NEXT request, which the client completes only after every frame of the burst has arrived. Oracle: strict incremental parse; multiset of ids == set of successful writes; per-writer order; payload check. " +
 			"distinct_nontrivial = distinct cross-writer interleaving signatures (order of writer ids in the received stream) with at least one cross-writer switch",
 		Assume: []string{"the client-side parser (internal/sber) is strict and independent of asn1-ber"},
 		Phases: func(tier string, seed int64) []Phase {
